@@ -1,10 +1,14 @@
-(* Properties_C11.v — C11: every submission to a thread pool runs once on a worker or is cancelled once.
-   Statements only; proofs are `exact <lemma of PoolProofs>`.  `reachable ops s` ranges over every schedule of
-   every pool size (1..4 workers in the wire format; the proofs do not use the bound), every number of client
-   threads with every program of submissions (six kinds, job bodies that submit again or call stop() on their own
-   pool) and explicit stop() calls, followed by the destructor.  cran / cdrop / ccanc count events, the places a
-   closure can be in (queue, swapped-out list of a stop() in progress) are the real data structures of the model. *)
-From Cocls Require Import Base BaseProofs PoolDefs PoolProofs PoolLive.
+(* Properties_C11.v — C11: every submission to a thread pool runs once on a worker or is cancelled once; stop() and
+   the destructor terminate and join all workers without deadlock for every timing.
+   Statements only; proofs are `exact <lemma of PoolProofs / PoolLive>`.  `reachable ops s` ranges over every schedule
+   of every pool size (1..4 workers in the wire format; the proofs do not use the bound), every number of client
+   threads with every program of submissions (six kinds; job bodies = lists of pool operations: submit again,
+   run_detached from a worker, stop() on the own pool, current::is_stopped / any_enqueued, co_await current()),
+   explicit stop() calls and client threads calling worker(), followed by the destructor.  cran / cdrop / ccanc
+   count events; the places a closure can be in (queue, swapped-out list of a stop() in progress) are the real data
+   structures of the model.  The model describes thread_pool.h with the C11 fixes (run(async), resume(suspend_point),
+   stop() waiting for a concurrent stop()). *)
+From Cocls Require Import Base BaseProofs PoolDefs PoolProofs PoolLive PoolTerm.
 
 (* exactly-once as conservation: at every moment a closure is in exactly one of
    invoked | destroyed un-run | queued | swapped out by one stop() in progress *)
@@ -26,35 +30,33 @@ Theorem c11_exactly_one_outcome : forall ops s c x,
 Proof. exact exactly_one_outcome. Qed.
 Print Assumptions c11_exactly_one_outcome.
 
-(* a closure is invoked only on one of the pool's worker threads *)
+(* a closure is invoked only by a worker: a thread of the pool or a client thread that has called worker() *)
 Theorem c11_ran_on_worker : forall ops s c x,
   reachable ops s -> nth_error (clos s) c = Some x -> 1 <= cran x ->
-  nclients s <= cran_on x < length (thrs s) /\ (forall p, T s (cran_on x) = Some p -> is_client p = false).
+  cran_on x < length (thrs s) /\ (nclients s <= cran_on x \/ In (cran_on x) (extw s)).
 Proof. exact ran_on_worker. Qed.
 Print Assumptions c11_ran_on_worker.
 
-(* per kind: destruction of an un-run closure that owns its waiter (co_await pool, run(fn), run_detached,
-   run(async)) delivers exactly one cancellation; a bare-handle closure delivers none *)
+(* destruction of an un-run closure delivers exactly one cancellation to its waiter, for every kind *)
 Theorem c11_cancel_observable : forall ops s c x,
-  reachable ops s -> nth_error (clos s) c = Some x -> ccanc x = if owned (ck x) then cdrop x else 0.
+  reachable ops s -> nth_error (clos s) c = Some x -> ccanc x = cdrop x.
 Proof. exact cancel_observable. Qed.
 Print Assumptions c11_cancel_observable.
 
-(* nobody is left hanging (owning kinds): completed by a run or by one cancellation, never both *)
+(* nobody is left hanging: every waiter is completed by a run or by one cancellation, never both *)
 Theorem c11_no_forgotten_waiter : forall ops s c x,
-  reachable ops s -> terminal s -> nth_error (clos s) c = Some x -> owned (ck x) = true -> cran x + ccanc x = 1.
+  reachable ops s -> terminal s -> nth_error (clos s) c = Some x -> cran x + ccanc x = 1.
 Proof. exact no_forgotten_waiter. Qed.
 Print Assumptions c11_no_forgotten_waiter.
 
-(* ... and REFUTED for the bare-handle kinds, as the code is: resume(suspend_point) and co_await pool(awaitable)
-   on a stopped pool end with the closure destroyed, nothing run, nothing cancelled (known finding F-C11) *)
-Theorem c11_bare_handle_forgotten_refuted : exists ops s,
-  reachable ops s /\ terminal s /\ forgotten s = true.
-Proof. exact bare_handle_forgotten_refuted. Qed.
-Print Assumptions c11_bare_handle_forgotten_refuted.
+(* no thread ever starts a pool operation after ~thread_pool has returned; when it returns every thread of the
+   pool has left worker(), every client call has returned, nothing is queued, no joinable thread is left *)
+Theorem c11_no_use_after_destroy : forall ops s,
+  reachable ops s ->
+  uad s = false /\ (destroyed s = true -> terminal s /\ exit_ s = true /\ stopped s = true /\ queue s = [] /\ threads s = []).
+Proof. exact no_use_after_destroy. Qed.
+Print Assumptions c11_no_use_after_destroy.
 
-(* when everything has returned the destructor has run, every worker has left worker(), nothing is queued and
-   no joinable thread is left: stop()/~thread_pool joined (or self-detached) every worker *)
 Theorem c11_terminal_all_joined : forall ops s,
   reachable ops s -> terminal s ->
   destroyed s = true /\ exit_ s = true /\ queue s = [] /\ threads s = [] /\
@@ -63,19 +65,44 @@ Proof. exact terminal_all_joined. Qed.
 Print Assumptions c11_terminal_all_joined.
 
 (* stop() and the destructor never deadlock, whatever the timing and whoever calls stop() (a client, the
-   destructor, a job on one of the pool's own workers): every reachable state in which some thread has not
-   finished has an enabled step (a thread at a lock, a sleeping worker with a wake-up token, a joiner whose
-   target has exited, or the destructor whose lifetime precondition holds) *)
+   destructor, a job on one of the pool's own workers, several of them at once): every reachable state in which
+   some thread has not finished has an enabled step — unless a client thread sits in worker() of an idle pool
+   that nobody stops, which is a deadlock of the client program *)
 Theorem c11_stop_no_deadlock : forall ops s,
-  reachable ops s -> ~ terminal s -> exists i, enabled s i = true.
+  reachable ops s -> ~ terminal s -> (exists i, enabled s i = true) \/ user_stuck s.
 Proof. exact stop_no_deadlock. Qed.
 Print Assumptions c11_stop_no_deadlock.
 
-(* non-vacuity: 2 workers, a job that stops its own pool while another client submits; the run reaches a
-   terminal state in which one job ran on worker 2 and the other submissions were cancelled *)
-Example c11_nonvacuous :
-  let ops := [[1;2]; [2;0;2;2;0]; [2;1;0;0;0]; [2;1;5;1;3]; [9; 0;2;1;0;3;1;1;2;0;0]]%Z in
+(* every run is finite: from a reachable state no schedule can make more than mu s steps (mu: remaining client
+   programs + job bodies + queued closures + pending wake-ups + join lists) *)
+Theorem c11_runs_are_finite : forall ops s n s',
+  reachable ops s -> steps s n s' -> n + mu s' <= mu s.
+Proof. exact runs_are_finite. Qed.
+Print Assumptions c11_runs_are_finite.
+
+(* hence the run of every case file, under every schedule, ends with every thread finished: the destructor has
+   joined all workers (or the client program deadlocked itself by leaving a thread in worker() of an idle pool) *)
+Theorem c11_run_ends : forall ops, terminal (final_state ops) \/ user_stuck (final_state ops).
+Proof. exact run_ends. Qed.
+Print Assumptions c11_run_ends.
+
+(* the model satisfies, at the end of every run, what the oracle demands of an implementation trace *)
+Theorem c11_model_final_ok : forall ops, ~ user_stuck (final_state ops) ->
   let s := final_state ops in
-  terminalb s = true /\ length (clos s) = 3 /\
-  map (fun x => (cran x, cdrop x, ccanc x)) (clos s) = [(1,0,0); (0,1,1); (0,1,1)].
+  destroyed s = true /\ uad s = false /\ stuck_list (thrs s) 0 = [] /\
+  forall c x, nth_error (clos s) c = Some x ->
+    cran x + ccanc x = 1 /\ ccanc x = cdrop x /\
+    wstate x = (if Nat.eqb (cran x) 1 then 1 else 2)%Z /\
+    (cran x = 1 -> cran_on x < length (thrs s) /\ (nclients s <= cran_on x \/ In (cran_on x) (extw s))).
+Proof. exact model_final_ok. Qed.
+Print Assumptions c11_model_final_ok.
+
+(* non-vacuity: 2 workers; a job that queries, hops to the current pool and then stops its own pool, while another
+   client submits resume(suspend_point) and the destructor races with the job's stop(): the run reaches a terminal
+   state, every closure has exactly one outcome *)
+Example c11_nonvacuous :
+  let ops := [[1;2]; [2;0;3;7;9;6]; [2;1;4]; [2;1;5;3]; [9; 0;2;1;0;3;1;1;2;0;0;3;3;1]]%Z in
+  let s := final_state ops in
+  terminalb s = true /\ length (clos s) = 4 /\
+  forallb (fun x => Nat.eqb (cran x + ccanc x) 1) (clos s) = true /\ uad s = false.
 Proof. vm_compute. repeat split. Qed.
